@@ -21,6 +21,7 @@ CONSTANTS
   WakeSkipsAcceptAll = FALSE
   PauseKeepsRegistered = FALSE
   RejoinPausedNoAvail = FALSE
+  ResetSeparate = FALSE
 SPECIFICATION FairSpec
 PROPERTIES C03_Live
 CHECK_DEADLOCK FALSE
